@@ -55,7 +55,12 @@ Inductive case :=
    accepted header.  [lens]: the lengths of the Write calls of the fault-free
    run of the same history (the implementation's own granularity). *)
 | KFault (schema_json codec_name sync : bytes) (c : comp) (size : Z) (ops : list enc_op)
-         (lens : list nat) (k partial : nat) (accepted : bytes) (failed : bool).
+         (lens : list nat) (k partial : nat) (accepted : bytes) (failed : bool)
+(* the FileWriter used directly: a history of WriteHeader / AppendHeader / WriteBlock calls of one
+   FileWriter over several writers; [outs]: what each writer held in the end (writer 0 first) and
+   [appended]: what each AppendHeader call returned, in call order.  The sync marker is read
+   from the first header writer 0 received. *)
+| KFw (schema_json codec_name : bytes) (c : comp) (ops : list fw_op) (outs : list bytes) (appended : list bytes).
 
 Definition pair_eqb (a b : bytes * bool) : bool := bytes_eqb (fst a) (fst b) && Bool.eqb (snd a) (snd b).
 
@@ -82,6 +87,13 @@ Definition check (c : case) : bool :=
     (if list_eqb Nat.eqb lens (map (@length Z) model)
      then pair_eqb (file_run_fault (comp_fn cp) sj cn sync size ops k partial) (accepted, failed)
      else true)
+  | KFw sj cn cp ops outs appended =>
+    let hl := length (header_bytes sj cn (repeat 0 16)) in
+    let sync := firstn 16 (skipn (hl - 16) (hd [] outs)) in
+    list_eqb bytes_eqb (map (fw_written (comp_fn cp) sj cn sync ops) (seq 0 (length outs))) outs &&
+    list_eqb bytes_eqb
+      (flat_map (fun op => match op with FwAppend buf => [fw_append sj cn sync buf] | _ => [] end) ops)
+      appended
   end.
 
 Definition bad_ids := bad_ids_gen check.
